@@ -14,10 +14,18 @@
           ordering "acknowledge after the entry write" (AckAfterRecords = TRUE, seeded change C11d) must be REFUTED twice
           (SUCCED while the value frame is not in the value file; SUCCED after a failed value write): both counterexamples
           are replayed on the real code as regression behaviours
+        - the rollback clause over the value-operation alphabet (SET / UNSET / MOD = INCR, APPEND, PUSH / TRIM = SHIFT, POP /
+          PIPELINE of these / PIPELINE of sub-frames that change nothing) x the prior state of the key (no value at all / value
+          object present but unset / a value): RollbackInv, RollbackToNoValue, ServedWithCommitted (AckQuorum_rollback.cfg); the
+          deviation "the undo record of a PIPELINE on a key without a value is dropped" (UndoLostOnNone = TRUE, seeded change
+          C11e) must be REFUTED; its counterexample is replayed on the real code (bare exclusive key and anchored key)
   (2) TLC -simulate behaviours of AckQuorumSim -> replayed on the real code (engine A, TestVerifAck)
   (3) seeded wide-range histories (lib/gen_ack.py) + the flush-fault matrix (gen_ack.flush_matrix: 0..2 followers x ack mode x
       failing write entry / value / both x value carrier SET / INCR / APPEND / key value / none x flush position x acks before /
-      after the flush) + directed histories (scenarios/ack_directed.json)
+      after the flush) + the rollback matrix (gen_ack.value_matrix: 19 value-operation kinds incl. 10 pipelines x prior state none /
+      unset / value / value with properties x outcome success / entry write fails / value write fails / negative ack / timeout /
+      link cut / demotion / unlock attempt, always with a dataless waiter queued behind) + directed histories
+      (scenarios/ack_directed.json) + the regression histories of recorded findings (scenarios/ack_rollback_regressions.json)
   (4) every recorded trace validated by TLC against the property monitor spec/mon/MonAck.tla
   (5) binding self-tests: recorded traces are corrupted (one field / one line) and must be rejected
 """
@@ -36,7 +44,8 @@ MANIFEST = {"C11": dict(level="model_checking", design="5/C11", engine="A",
          "append file AND value file at the moment of the reply (both files re-read inside the reply callback: the 64-byte entry, and the value frame "
          "at the offset its flush gave it when the record carries one) and against the set of followers whose positive ack was "
          "delivered; requests naming a pending LockId must get LOCK_ACK_WAITING; after an error reply the hold must be gone, the value restored and the "
-         "queue served; nothing may stay pending after the drain.",
+         "queue served - for every kind of value operation a require-ack lock can carry and every prior state of the key, the queued request that is "
+         "served in the failing step must be handed the value before the grant; nothing may stay pending after the drain.",
     note="In-process and leader-local: followers are played by the driver through Aof.loadLockAck (what ReplicationServer.RecvProcess calls), the "
          "leader's flush through AofFile.Flush under Aof.aofGlock with the idle-flush held back by keeping Aof.channelActiveCount at 1 ('another shard is "
          "busy'); a failing write of the entry file or of the value file alone = that file's handle swapped for /dev/full inside hook aof.flush.enter; "
@@ -73,18 +82,32 @@ def must_pass(name, r):
         raise InfraError(f"AckQuorum model check '{name}' did not complete cleanly (design model, not a verdict on the code):\n" + r["out"][-3000:])
     return {"distinct_states": st["distinct"], "generated": st["generated"], "wall_s": round(r["wall"], 1)}
 
-def behaviour_to_scenario(b, name):
-    """One exported behaviour (mode, up0, hist) -> one engine-A scenario."""
+def behaviour_to_scenario(b, name, salt=0, anchor=None):
+    """One exported behaviour (mode, up0, val0, hist) -> one engine-A scenario.  val0 = the prior state of the key (0 no value,
+    1 unset value object, 2 a value): anything but 0 needs the key's manager to live, so the model's exclusive key becomes a
+    Count-1 key with a dataless anchor hold (gen_ack.prelude) - one more holder fits, exactly as on the exclusive key.
+    dv = operation code of the model (AckQuorum.After), made concrete on a value type chosen by salt."""
     fmap = {f: i + 1 for i, f in enumerate(sorted(b["up0"]))}
     steps = []
+    val0 = b.get("val0", 0)
+    typ = ["str", "num", "arr"][salt % 3]
+    if anchor is None:
+        anchor = val0 != 0 or salt % 2 == 1
+    cnt = 1 if anchor else 0
+    if anchor:
+        nid = [900]
+        def nxt():
+            nid[0] += 1
+            return nid[0]
+        gen_ack.prelude(steps, nxt, 1, {0: "none", 1: "unset"}.get(val0, "value"), typ)
     for st in b["hist"]:
         op = st["op"]
         if op == "lock":
             lid = LIDN[st["lid"]]
-            data = gen_ack.data_set("m%d" % st["dv"]) if st["dv"] > 0 else ""
-            steps.append(gen_ack.lock(st["id"], 1, lid, bool(st["ack"]), st["to"], ex=40, data=data))
+            data = gen_ack.model_op_frame(st["dv"], typ, salt + st["id"]).hex()
+            steps.append(gen_ack.lock(st["id"], 1, lid, bool(st["ack"]), st["to"], ex=40, cnt=cnt, data=data))
         elif op == "unlock":
-            steps.append(gen_ack.unlock(st["id"], 1, LIDN[st["lid"]]))
+            steps.append(gen_ack.unlock(st["id"], 1, LIDN[st["lid"]], cnt=cnt))
         elif op == "tick":
             if steps and steps[-1]["op"] == "tick":
                 steps[-1]["n"] += 1
@@ -161,6 +184,74 @@ def maximal(hs):
         keep.append(b)
     return keep
 
+def run_leader_part(prop, binp, scs, wd, out):
+    """Run the leader-part histories.  A panic of the code under test on one of its own goroutines (AofChannel, ack handlers,
+    the timeout sweep) kills the driver process of that shard: it is a verdict only if the history in flight dies the same
+    way when it runs alone (engine.crash_verdict; a crash site confirmed once is not re-confirmed for every further history
+    that dies there); what the shard recorded up to there is still validated, and the histories BEHIND the dead one are run
+    again in the next round, so a panicking cell of the matrix does not hide the cells after it."""
+    traces, crashes, confirmed = [], [], {}
+    todo, rnd = list(scs), 0
+    while todo:
+        rnd += 1
+        if rnd > 12:
+            raise InfraError(f"engine A: the driver still dies after {rnd - 1} rounds; crash sites: " + json.dumps(sorted(confirmed)))
+        res = engine.run_harness(binp, "TestVerifAck", todo, os.path.join(wd, f"run{rnd}"), tag="a", timeout=1500)
+        byname = {sc["name"]: sc for sc in todo}
+        nxt = []
+        for fin, fout, p in res:
+            if p is not None:
+                text = (p.stdout or "") + "\n" + (p.stderr or "")
+                c = engine.parse_go_crash(text)
+                names = [json.loads(l)["name"] for l in open(fin) if l.strip()]
+                last = None
+                if os.path.exists(fout):
+                    for ln in open(fout, errors="replace"):
+                        if '"e":"begin"' in ln[:24]:
+                            try:
+                                last = json.loads(ln).get("name")
+                            except Exception:
+                                pass
+                site = c[1]["at"] if c and c[1] else None
+                if site and "zz_verif" not in site and site in confirmed and last in byname:
+                    v = {"prop": prop, "code": "code-under-test-panicked", "name": last,
+                         "detail": {"panic": c[0][:200], "func": c[1]["func"], "at": site, "reproduced_alone": "same crash site as " + confirmed[site]}}
+                    cv = (v, byname[last])
+                else:
+                    cv = engine.crash_verdict(prop, binp, "TestVerifAck", fin, fout, p, os.path.join(wd, "crash"))
+                    if cv is None:
+                        raise InfraError(f"engine A died on {fin}:\n" + (p.stdout or "")[-3000:] + (p.stderr or "")[-2000:])
+                    confirmed.setdefault(cv[0]["detail"]["at"], cv[0]["name"])
+                # which value operation the request in flight carried, on what (for narrow finding signatures)
+                opd = [st for st in cv[1]["steps"] if st.get("op") == "lock" and st.get("tf", 0) & 0x1000 and st.get("data")]
+                if opd:
+                    cv[0]["detail"]["ack_value_ops"] = sorted({value_op_name(st["data"]) for st in opd})
+                out.viols.append(cv)
+                crashes.append(cv[0])
+                engine.drop_unfinished(fout)
+                i = names.index(cv[0]["name"]) if cv[0]["name"] in names else len(names)
+                nxt += [byname[n] for n in names[i + 1:]]
+            traces.append(fout)
+        todo = nxt
+    return traces, crashes, rnd
+
+OPN = {0: "SET", 1: "UNSET", 2: "INCR", 3: "APPEND", 4: "SHIFT", 5: "EXECUTE", 6: "PIPELINE", 7: "PUSH", 8: "POP"}
+def value_op_name(hexframe):
+    b = bytes.fromhex(hexframe)
+    if len(b) < 6:
+        return ""
+    t = b[4] & 0x3f
+    if t != 6:
+        return OPN.get(t, str(t))
+    subs, i, pl = [], 0, b[6:] if not b[5] & 0x10 else b[8 + b[6] + (b[7] << 8):]
+    while i + 4 <= len(pl):
+        n = int.from_bytes(pl[i:i + 4], "little")
+        if n < 2 or i + 4 + n > len(pl):
+            break
+        subs.append(OPN.get(pl[i + 4] & 0x3f, "?"))
+        i += 4 + n
+    return "PIPELINE[" + ",".join(subs) + "]"
+
 # ------------------------------------------------------------------ self-tests (binding demonstration)
 
 def corruptions(lines):
@@ -229,6 +320,7 @@ def corruptions(lines):
     # (d) the value in the snapshot after an error reply to a pending value-carrying request is replaced
     withdata = {e["id"] for e in evs if e["e"] == "req" and e["cmd"] == "L" and e.get("data")}
     nreq_data = len(withdata)
+    seen_pending_all = {h["rid"] for e in evs if e["e"] == "snap" for k in e["keys"] for h in k["holders"] if h.get("ack") != 255}
     seen_pending = set()      # requests the snapshots showed as ack-pending holders before their reply
     for i, e in enumerate(evs):
         if e["e"] == "snap":
@@ -250,12 +342,32 @@ def corruptions(lines):
             else:
                 continue
             break
+    # (e) the value handed to the queued request that is served when a pending value-carrying request fails is replaced
+    # (only in histories with ONE value-carrying ack request and nothing else value-carrying answered in the failing step: there
+    #  the monitor is not agnostic about "the value before the grant")
+    reqs = {e["id"]: e for e in evs if e["e"] == "req"}
+    ackdata = [r for r in reqs.values() if r["cmd"] == "L" and r["tf"] & 0x1000 and r.get("data")]
+    failed_at = None
+    for i, e in enumerate(evs if len(ackdata) == 1 else []):
+        if e["e"] == "snap":
+            failed_at = None
+        if e["e"] == "reply" and failed_at is not None and e["rid"] in withdata:
+            failed_at = None
+        if e["e"] == "reply" and e.get("ackreq") and e["res"] in (8, 11) and e["rid"] in withdata and e["rid"] in seen_pending_all:
+            failed_at = i
+        elif e["e"] == "reply" and failed_at is not None and e["res"] == 0 and e["rid"] in reqs and reqs[e["rid"]]["cmd"] == "L" \
+                and not reqs[e["rid"]].get("data") and reqs[e["rid"]]["flag"] == 0 and not reqs[e["rid"]]["tf"] & 0x1000 and reqs[e["rid"]]["key"] == reqs[evs[failed_at]["rid"]]["key"]:
+            c = [dict(x) for x in evs]
+            c[i]["data"] = "0400000000006666"
+            c[i].pop("data_empty", None)
+            yield "servedvalue", dump(c), f"line {i+1}: the value handed to the queued request served after a failed ack replaced", "queued-request-served-with-unrestored-value"
+            break
 
 def selftests(traces, wd):
     """Run each kind of corruption once (on the first history that offers it); every one must be rejected with its code.
     Candidates are collected first (up to 3 per kind), the kinds are then evaluated side by side."""
     import concurrent.futures as cf
-    wanted = {"ondisk", "quorum", "ackwaiting", "value", "valondisk", "flushval", "fvalondisk", "fflushval"}
+    wanted = {"ondisk", "quorum", "ackwaiting", "value", "servedvalue", "valondisk", "flushval", "fvalondisk", "fflushval"}
     cands = {}
     for tr in traces:
         lines = read(tr).splitlines()
@@ -312,6 +424,9 @@ def run(prop, tier, seed):
             "c11d_follower": lambda: run_model("c11d_follower", "AckQuorum_c11d_follower.cfg", wd, 900, workers=1),
             "heal": lambda: run_model("heal", "AckQuorum_quick.cfg" if quick else "AckQuorum_thorough.cfg", wd, 1200 if quick else 3000, workers=max(2, engine.NCPU // 4),
                       overrides={"Heal = FALSE": "Heal = TRUE", "MaxFail = 1": "MaxFail = 2", 'Classes = {"neg", "fail", "cut", "dem"}': 'Classes = {"fail"}'}),
+            "rollback": lambda: run_model("rollback", "AckQuorum_rollback.cfg", wd, 1500 if quick else 3000, workers=max(2, engine.NCPU // 4),
+                      overrides={'Classes = {"neg", "fail", "cut", "dem"}': 'Classes = {"neg", "fail"}'} if quick else None),
+            "c11e": lambda: run_model("c11e", "AckQuorum_c11e.cfg", wd, 900, workers=1),
             "sim": lambda: vtlc.run_tlc(SPEC, "AckQuorumSim", read(os.path.join(SPEC, "sim", "AckQuorum_sim.cfg")), os.path.join(wd, "sim"), workers=1,
                           timeout=900 if quick else 2400, simulate=f"num={nb}", depth=110, seed=seed),
             "build": lambda: vbuild.build_inpkg("server", wd),
@@ -326,6 +441,19 @@ def run(prop, tier, seed):
         models["follower_handshake"] = must_pass("follower handshake", R["follower"])
         models["before_fix_3033d68_regression_model"] = must_pass("pre-fix regression model", R["prefix"])
         models["two_write_flush_files_healing"] = must_pass("two-write flush, files fail and heal", R["heal"])
+        models["rollback_all_value_operations_x_prior_states"] = must_pass("rollback over the value alphabet", R["rollback"])
+        # the deviation of the seeded change C11e: refuted, as a replay script (run twice: on the bare exclusive key of the model
+        # and on the anchored key, where the key's manager survives whoever holds it)
+        r = R["c11e"]
+        cxs = [json.loads(h) for h in parse_behaviours(r["out"], "CX")]
+        if "ServedCx is violated" not in r["out"] or not cxs:
+            raise InfraError("the model of the dropped undo record (UndoLostOnNone = TRUE) no longer refutes ServedWithCommitted (model / config problem):\n" + r["out"][-2000:])
+        b0 = sorted(cxs, key=lambda b: len(b["hist"]))[0]
+        c11e_scs = [behaviour_to_scenario(b0, "tlc-cx-c11e-bare", salt=0, anchor=False), behaviour_to_scenario(b0, "tlc-cx-c11e-anchor", salt=0, anchor=True)]
+        models["c11e_counterexample"] = {"model": "UndoLostOnNone = TRUE (undo record of a PIPELINE on a key without a value dropped)", "refuted": "ServedWithCommitted",
+                                         "meaning": "a pending request fails, the value it wrote stays and the queued request is served with it",
+                                         "steps": [{k: v for k, v in st.items() if k in ("op", "lid", "tf", "data", "f", "res", "cnt")} for st in c11e_scs[0]["steps"]],
+                                         "role": "regression behaviour: the code must pass it; a reproduction is reported by the monitor as a violation"}
         # the A10 counterexample
         r = R["a10"]
         cx = [json.loads(h) for h in parse_behaviours(r["out"], "CX")]
@@ -373,15 +501,19 @@ def run(prop, tier, seed):
         behs = behs[:nb]
         if len(behs) < 20:
             raise InfraError("behaviour generation produced too few behaviours:\n" + rs["out"][-1500:])
-        beh = [behaviour_to_scenario(b, f"tlc-{seed}-{i}") for i, b in enumerate(behs)]
+        beh = [behaviour_to_scenario(b, f"tlc-{seed}-{i}", salt=seed * 31 + i) for i, b in enumerate(behs)]
         # (3) seeded + directed
         rnd = [gen_ack.gen_ack(seed, i) for i in range(220 if quick else 4000)]
         with open(os.path.join(VERIF, "scenarios", "ack_directed.json")) as fh:
             direct = json.load(fh)
+        # recorded findings of the rollback clause (A39, fixed by 16fab60): their histories stay as regressions (must be accepted)
+        with open(os.path.join(VERIF, "scenarios", "ack_rollback_regressions.json")) as fh:
+            direct += [dict(sc, name="regr-A39-" + sc["name"]) for sc in json.load(fh)]
         matrix = gen_ack.flush_matrix(seed, sample=150 if quick else None)
-        scs = cx_scs + c11d_scs + beh + rnd + matrix + direct
+        vmatrix = gen_ack.value_matrix(seed, per_cell=4 if quick else None)
+        scs = cx_scs + c11d_scs + c11e_scs + beh + rnd + matrix + vmatrix + direct
         t1 = time.time()
-        res = engine.run_harness(binp, "TestVerifAck", scs, os.path.join(wd, "run"), tag="a", timeout=1500)
+        traces, crashes, rounds = run_leader_part(prop, binp, scs, os.path.join(wd, "run"), out)
         # follower part of engine A: records handed to a real follower-role node, its own log flushed with failing writes
         fscs = [fcx] + gen_ack.follower_matrix(seed, sample=90 if quick else None)
         fres = engine.run_harness(binp, "TestVerifAckFollower", fscs, os.path.join(wd, "runf"), tag="f", timeout=900)
@@ -389,18 +521,6 @@ def run(prop, tier, seed):
             if p is not None:
                 raise InfraError(f"engine A (follower part) died on {fin}:\n" + (p.stdout or "")[-3000:] + (p.stderr or "")[-2000:])
         t_harness = time.time() - t1
-        traces = []
-        for fin, fout, p in res:
-            if p is not None:
-                # a panic of the code under test on one of its own goroutines (AofChannel, ack handlers) kills the driver:
-                # a verdict only if the history in flight dies the same way when it runs alone; what the shard recorded up
-                # to there is still validated
-                cv = engine.crash_verdict(prop, binp, "TestVerifAck", fin, fout, p, os.path.join(wd, "crash"))
-                if cv is None:
-                    raise InfraError(f"engine A died on {fin}:\n" + (p.stdout or "")[-3000:] + (p.stderr or "")[-2000:])
-                out.viols.append(cv)
-                engine.drop_unfinished(fout)
-            traces.append(fout)
         traces += [fout for _, fout, _ in fres]
         # (4) monitor
         t1 = time.time()
@@ -413,6 +533,7 @@ def run(prop, tier, seed):
         cx_names = {s["name"] for s in cx_scs}
         cx_reproduced = any(v.get("name") in cx_names and v["code"] == "succed-before-leader-log" for v in viols)
         models["a10_counterexample"]["reproduced_on_real_code"] = cx_reproduced
+        models["c11e_counterexample"]["reproduced_on_real_code"] = sorted({v.get("name") for v in viols if v.get("name") in {s["name"] for s in c11e_scs}})
         models["c11d_follower_counterexample"]["reproduced_on_real_code"] = any(v.get("name") == fcx["name"] for v in viols)
         for sc in c11d_scs:
             models[sc["name"][len("tlc-cx-"):] + "_counterexample"]["reproduced_on_real_code"] = any(v.get("name") == sc["name"] for v in viols)
@@ -423,7 +544,7 @@ def run(prop, tier, seed):
         bad = [s for s in stests if not s["rejected"]]
         if bad:
             raise InfraError("self-test failed: the monitor accepted a corrupted trace: " + json.dumps(bad))
-        if not {"valondisk", "flushval", "fvalondisk", "fflushval"} <= {t["kind"] for t in stests}:
+        if not {"valondisk", "flushval", "fvalondisk", "fflushval", "servedvalue", "value"} <= {t["kind"] for t in stests}:
             raise InfraError("self-test of the two-write clauses could not be performed (no accepted history with a value-carrying SUCCED): " + json.dumps(stests))
         if len(stests) < 3:
             raise InfraError("self-test could not be performed (too few corruptible histories): " + json.dumps(stests))
@@ -434,12 +555,17 @@ def run(prop, tier, seed):
                "ack_records_in_failed_entry_write": 0, "ack_records_with_value_in_failed_value_write": 0, "ack_records_without_value_in_failed_value_write": 0,
                "ack_succed_with_value_frame_checked": 0, "ack_succed_without_value": 0, "ack_error_with_value_frame": 0, "value_frames_unattributed": 0,
                "flushes_ok_after_a_failed_one": 0, "failing_write_by_config": {},
+               "rollback_matrix": {"cells_operation_x_prior_with_a_failed_ack": 0, "cells_operation_x_prior_x_outcome": 0, "failed_value_carrying_ack_requests": 0,
+                                   "of_them_on_a_key_without_value": 0, "of_them_on_an_unset_value_object": 0, "of_them_on_a_value_with_properties": 0,
+                                   "queued_dataless_requests_served_in_the_failing_step": 0, "by_operation": {}, "by_prior": {}, "by_outcome": {}},
                "follower_part": {"histories": 0, "records": 0, "records_with_value": 0, "ack_frames_positive": 0, "ack_frames_negative": 0,
                                  "ack_frames_negative_with_log_intact": 0, "flushes_entry_write_failed": 0, "flushes_value_write_failed": 0, "flushes_ok": 0},
                "configs": {}}
         nontrivial_names = set()
+        cells = set()
         for tr in traces:
             cfgk, waiting, curname, hadfail, fside = None, set(), None, False, False
+            ackops, lastcls, failstep = {}, {}, None
             with open(tr) as fh:
                 for ln in fh:
                     e = json.loads(ln)
@@ -470,7 +596,12 @@ def run(prop, tier, seed):
                         curname = e["name"]
                     elif k == "req" and e["cmd"] == "L" and e["tf"] & 0x1000:
                         cov["ack_requests"] += 1
+                        if e.get("data"):
+                            opname = e.get("dop", "") + ("[" + ",".join(e.get("dsubs", [])) + "]" if e.get("dop") == "PIPELINE" else "")
+                            ackops[e["id"]] = (opname, lastcls.get((e["db"], e["key"]), "none"), e["key"])
                     elif k == "snap":
+                        lastcls = {(x[0], x[1]): x[2] for x in e.get("vcls", [])}
+                        failstep = None
                         for kk in e["keys"]:
                             for wq in kk["waiters"]:
                                 waiting.add(wq["rid"])
@@ -481,6 +612,21 @@ def run(prop, tier, seed):
                     elif k == "reply":
                         if e["res"] == 12:
                             cov["ack_waiting_replies"] += 1
+                        if failstep is not None and e["res"] == 0 and not e.get("ackreq") and e.get("key") == failstep:
+                            cov["rollback_matrix"]["queued_dataless_requests_served_in_the_failing_step"] += 1
+                        if e.get("ackreq") and e["rid"] in ackops:
+                            opname, prior, okey = ackops.pop(e["rid"])
+                            outc = {0: "succed", 8: "timeout", 11: "error"}.get(e["res"], "other-%d" % e["res"])
+                            cells.add((opname, prior, outc))
+                            rm = cov["rollback_matrix"]
+                            rm["by_outcome"][outc] = rm["by_outcome"].get(outc, 0) + 1
+                            if e["res"] in (8, 11):
+                                failstep = okey
+                                rm["failed_value_carrying_ack_requests"] += 1
+                                rm["by_operation"][opname] = rm["by_operation"].get(opname, 0) + 1
+                                rm["by_prior"][prior] = rm["by_prior"].get(prior, 0) + 1
+                                if prior in ("none", "unset", "props"):
+                                    rm[{"none": "of_them_on_a_key_without_value", "unset": "of_them_on_an_unset_value_object", "props": "of_them_on_a_value_with_properties"}[prior]] += 1
                         if e.get("ackreq"):
                             if e.get("hasval") and not e.get("valknown"):
                                 cov["value_frames_unattributed"] += 1
@@ -524,18 +670,21 @@ def run(prop, tier, seed):
                         cov["demotions"] += 1
                     elif k == "parked":
                         cov["parked_doack"] += 1
+        cov["rollback_matrix"]["cells_operation_x_prior_x_outcome"] = len(cells)
+        cov["rollback_matrix"]["cells_operation_x_prior_with_a_failed_ack"] = len({(o, p) for o, p, r in cells if r in ("timeout", "error")})
+        cov["code_under_test_panics"] = {"histories": len(crashes), "sites": sorted({c["detail"]["at"] for c in crashes}), "harness_rounds": rounds}
         out.coverage = {
             "states": st_states, "transitions": st_gen, "traces_validated_against_impl": len(scs) + len(fscs),
-            "samples": [{"name": s["name"], "followers": s["followers"], "mode": s["mode"], "steps": s["steps"][:12]} for s in (cx_scs[:1] + c11d_scs + beh[:1] + rnd[:1] + matrix[:1])],
+            "samples": [{"name": s["name"], "followers": s["followers"], "mode": s["mode"], "steps": s["steps"][:12]} for s in (cx_scs[:1] + c11d_scs + c11e_scs[:1] + beh[:1] + rnd[:1] + matrix[:1] + vmatrix[:1])],
             "exhaustive": True, "exhaustive_scope": "the bounded TLA+ design models are enumerated completely; the schedules run on the real code are a sample (TLC random walks, seeded, directed)",
             "models": models,
             "model": {"module": "spec/AckQuorum.tla", "constants": "modes all/majority x 0..2 followers x one fault class {negative ack, failing flush, link cut, demotion} per "
                       "behaviour, 2 LockIds, SET values, ack wait 1 s, %d requests, clock <= %d; symmetry over followers and LockIds; channel-priority reduction" % ((2, 2) if quick else (3, 2)),
-                      "invariants": ["AckSafety", "EntryInLog", "ValueInLog", "FailedWriteAnswered", "NodeQuorum", "PendingAnswered", "NoSuccessAfterFailure", "ErrorCleansUp", "ValueInv", "NoLostWakeup", "OneReply",
+                      "invariants": ["AckSafety", "EntryInLog", "ValueInLog", "FailedWriteAnswered", "RollbackInv", "RollbackToNoValue", "ServedWithCommitted", "NodeQuorum", "PendingAnswered", "NoSuccessAfterFailure", "ErrorCleansUp", "ValueInv", "NoLostWakeup", "OneReply",
                                      "PendShape", "TableShape", "Exclusive", "AckSafetyExceptA10 (regression model A10Fixed = FALSE)",
                                      "ValueInLog / NoSuccessAfterFailure REFUTED under AckAfterRecords = TRUE (deviation C11d)"]},
-            "tlc_behaviours_replayed": len(beh), "tlc_behaviours_printed": len(hs), "tlc_counterexamples_replayed": len(cx_scs) + len(c11d_scs),
-            "random_histories": len(rnd), "flush_fault_matrix_histories": len(matrix), "follower_part_histories": len(fscs), "directed_histories": len(direct),
+            "tlc_behaviours_replayed": len(beh), "tlc_behaviours_printed": len(hs), "tlc_counterexamples_replayed": len(cx_scs) + len(c11d_scs) + len(c11e_scs),
+            "random_histories": len(rnd), "flush_fault_matrix_histories": len(matrix), "value_rollback_matrix_histories": len(vmatrix), "follower_part_histories": len(fscs), "directed_histories": len(direct),
             "monitor": {"module": "spec/mon/MonAck.tla", "events": mst["events"], "monitor_states": mst["monitor_states"]},
             "real_code_events": cov,
             "stage_wall_s": {"tlc_models_and_build": round(t_models, 1), "harness": round(t_harness, 1), "monitor": round(t_monitor, 1), "selftest": round(t_selftest, 1)},
@@ -552,6 +701,8 @@ def run(prop, tier, seed):
             "a write failure is ENOSPC on every write to that file (handle swapped for /dev/full under Aof.aofGlock); partial writes are not produced; values are small enough to be buffered (the direct value write of WriteLockData is not reached)",
             "between the two writes of a flush only the shard's channel goroutine runs (client requests arriving in that window are ordered after the flush, in the model and in the engine)",
             "the value frame of a record is looked for at the offset its flush gave it (size of the value file when the flush began + position in the value buffer); after a failed value write later frames are therefore still found where they were written (what a replay of the log makes of the shifted frames is C08's matter)",
+            "a key's value lives in its manager, which is recycled when nobody holds or waits: prior states other than 'no value' are set up on a Count-1 key kept alive by a dataless anchor hold (one more holder fits, as on an exclusive key); on a key that nobody references after the failure the rollback is not observable and not judged",
+            "when another value-carrying request holds, is pending or is answered on the same (shared) key while the judged request is pending, 'the value before the grant' is not defined by the statement: the value clause is skipped there (delta-undo against a value changed by somebody else is not judged)",
             "one shard (DBConcurrent = 1) so that quiescence of the single AofChannel is decidable; the channel goroutine handles items eagerly (no lag relative to timeouts) except when parked at the DoAckLock hook",
             "re-entrant re-locks and update requests carrying the require-ack flag are outside the statement's quantification and are not generated",
             "the required number of followers is all = n, majority = floor((n+1)/2) (no arbiter); when links are cut while a request is pending the minimum over the configurations seen is demanded",
